@@ -512,6 +512,7 @@ int cif_container_get_frame(
     } else {
         int result;
 
+        temp->code = NULL;  /* cif_container_free() will be applied to temp even if normalization fails */
         temp->code_orig = NULL;
         result = cif_normalize_name(code, -1, &(temp->code), CIF_INVALID_FRAMECODE);
         if (result != CIF_OK) {
@@ -1192,7 +1193,7 @@ int cif_container_remove_item(
         ) {
     FAILURE_HANDLING;
     cif_tp *cif;
-    UChar *normalized_name;
+    UChar *normalized_name = NULL;
     int result;
 
     if (container == NULL) return CIF_INVALID_HANDLE;
@@ -1256,6 +1257,7 @@ int cif_container_remove_item(
                         }
                     }
                     if (COMMIT(cif->db) == SQLITE_OK) {
+                        free(normalized_name);
                         return CIF_OK;
                     }
                     /* fall through */
@@ -1271,6 +1273,7 @@ int cif_container_remove_item(
     DROP_STMT(cif, get_loop_size);
 
     FAILURE_HANDLER(soft):
+    free(normalized_name);
     FAILURE_TERMINUS;
 }
 
